@@ -33,6 +33,40 @@ MUTANTS = [
 ]
 
 
+def real_split_stage(ctx, pid):
+    import json
+    import os
+    thorough = ctx.tier == "thorough"
+    binary = ctx.go_test_build("plugin/action/split")
+    rng = ctx.rng
+    scs = []
+    for k in range(60 if thorough else 16):
+        nl = rng.randint(2, 6)
+        lines = [dict(id=i + 1, shape=rng.choice(["objects", "objects", "strings", "numbers", "mixed", "empty", "scalar", "absent"]), n=rng.randint(1, 3))
+                 for i in range(nl)]
+        scs.append(dict(run=80000 + k, name="real-split-%d" % k, batch=rng.choice([1, 2, 3, 4]), workers=rng.choice([1, 2]), flush_ms=rng.choice([5, 20]),
+                        lines=lines))
+    cases = os.path.join(ctx.scratch, "c01_split_cases.ndjson")
+    with open(cases, "w") as f:
+        for sc in scs:
+            f.write(json.dumps(sc) + "\n")
+    out = os.path.join(ctx.scratch, "c01_split_trace.ndjson")
+    rc, txt = ctx.run_bin(binary, "^TestVerifC01Split$", env={"VERIF_CASES": cases, "VERIF_OUT": out}, timeout=600)
+    if rc != 0 or not os.path.exists(out):
+        crash = core.classify_crash(txt)
+        if crash is None:
+            raise vlib.Infra("real-split harness failed rc=%s:\n%s" % (rc, txt[-3000:]))
+        ctx.classify([crash])
+        return
+    viol, nlines = core.validate(ctx, out, maxid=64)
+    ctx.evaluations += len(scs)
+    ctx.traces_validated += len(scs)
+    ctx.extra["real_split_runs"] = len(scs)
+    by_run = {sc["run"]: sc for sc in scs}
+    kinds = core.KINDS[pid] | {"commit_unacked", "not_idle", "unaccounted"}
+    ctx.classify(core.records(viol, by_run, kinds))
+
+
 def run(ctx, pid=PID, families=(("commit", 120, 600), ("retry", 60, 300)), mutants=MUTANTS):
     thorough = ctx.tier == "thorough"
     ctx._core_bin = ctx.go_test_build("pipeline")      # fail fast if the tree does not build
@@ -122,6 +156,9 @@ def run(ctx, pid=PID, families=(("commit", 120, 600), ("retry", 60, 300)), mutan
                 ctx.extra["conformance_rejects_corrupted_trace"] = ok
                 if ok is False:
                     raise vlib.Infra("trace specification accepted a corrupted trace: binding is vacuous")
+    # 4. the REAL split action in front of a batched output: every shape of the split field (the harness-owned split above spawns
+    #    whatever it is told; the real plugin decides by the field's content)
+    real_split_stage(ctx, pid)
     ctx.rule = ("scenario = (lines with source/stream/class, configuration, gate-level schedule or seed); schedules come from "
                 "TLC counterexamples of spec mutants, TLC simulation of Pipeline.tla and a seeded random generator. "
                 "Non-trivial/distinct = distinct renamed sequences of send-return/commit/drop steps of runs in which a "
